@@ -9,7 +9,7 @@ import traceback
 from . import extract, report
 
 LEVELS = {"C05": "proof"}
-CLAIMED = ["C01", "C02", "C03", "C04", "C05", "C06", "C07", "C08", "C09", "C10", "C11", "C12", "C13", "C14", "C15", "C16"]
+CLAIMED = ["C01", "C02", "C03", "C04", "C05", "C06", "C07", "C08", "C09", "C10", "C11", "C12", "C13", "C15", "C16"]
 
 
 class Ctx:
